@@ -1,4 +1,7 @@
 import FFVerif.Props.C09
+import FFVerif.Pins.pinBasisArrayFinalize
+import FFVerif.Pins.pinFourElementTraces
+import FFVerif.Pins.pinErrorTransferMatrix
 #print axioms FFVerif.C09.fourElementTraces_entries
 #print axioms FFVerif.C09.cumulant_general_eq_commutators
 #print axioms FFVerif.C09.cumulant_general_model
@@ -9,3 +12,6 @@ import FFVerif.Props.C09
 #print axioms FFVerif.C09.K_row_col_zero
 #print axioms FFVerif.C09.cumulant_real
 #print axioms FFVerif.C09.cumulant_source_shape
+#print axioms FFVerif.Pins.pinBasisArrayFinalize
+#print axioms FFVerif.Pins.pinFourElementTraces
+#print axioms FFVerif.Pins.pinErrorTransferMatrix
